@@ -191,7 +191,8 @@ def generate(rng, tier, prop):
             fl = [dict(faults.draw(rng, ["torn_write"]), fill=rng.choice(["cut", "cut", "zero_sector"]))]
         ops.append({"op": "splice", "d1": 0, "mid": 1, "d2": 2, "other": 3, "faults": fl, "raw_rep": raw_rep,
                     "glue": rng.choice(["\n", "\n", "\n\n", "", " \n"]),
-                    "raw_x": (rng.choice([None, None, None, 0, 1, 2, 3, 4, 5, 6, 7]) if fl or rng.random() < 0.5 else None) if raw_rep == 1 else rng.randrange(8),
+                    "raw_x": (rng.choice([None, None, None, None, 0, 1, 2, 3, 4, 5, 6, 7, 8, 9, 10, 11]) if fl or rng.random() < 0.5 else None) if raw_rep == 1 else rng.randrange(12),
+                    "end_newline": rng.random() < 0.7,
                     "no_d2": rng.random() < 0.25})
     elif prop == "C05":
         if rng.random() < (0.004 if tier == "quick" else 0.03):
@@ -229,6 +230,10 @@ RAW_X = [
     '@article{q, t = "a {b" c}\n',
     "}}}} @@@ ,,, === \"\n",
     "@preamble{ \"x\" # {y\n@",
+    "@string{foo",
+    "@string{",
+    "@article{k",
+    "@article{k,\n  title = {T},\n  title = {again}\n}\n@article{k2, a = {1}, a = {2}}",
 ]
 
 
@@ -871,9 +876,12 @@ def _splice(res, op, cfg, docs, step, V, guarded):
     glue = op.get("glue", "\n")
     pre = D1 + ("\n" if D1 else "")
     text = pre + X + glue
-    # D2 must start at the beginning of a line
-    if text and not text.endswith("\n"):
+    # D2 must start at the beginning of a line (without a suffix the text may end anywhere, also without a line break)
+    if text and not text.endswith("\n") and (D2 or op.get("end_newline", True)):
         text += "\n"
+    if not D2 and not op.get("end_newline", True):
+        text = text.rstrip("\n") if op.get("raw_x") is not None else text
+        res.probes["input_ends_without_newline"] += not text.endswith("\n")
     x_end = len(text)
     text += D2
     res.sim_steps += 3
@@ -913,6 +921,13 @@ def _splice(res, op, cfg, docs, step, V, guarded):
                   f"block {i} of the well-formed prefix changed when text was appended: alone {_cmp(b)!r}@{b.start_line}, with suffix {_cmp(g)!r}@{g.start_line}")
                 return
         tail = got[len(got) - len(p2):]
+        live = {id(x) for x in got if isinstance(x, (M.Entry, M.String))}
+        for i, (g, b) in enumerate(zip(tail, p2)):
+            if isinstance(g, M.DuplicateBlockKeyBlock) and not isinstance(b, M.DuplicateBlockKeyBlock) and id(g.previous_block) not in live:
+                V("C04", "suffix", f"{how}/flagged-duplicate-without-an-earlier-live-block", step,
+                  f"block {i} of the well-formed suffix ({type(unwrap_dup(b)).__name__} {g.key!r}) is flagged as a duplicate although no live "
+                  f"entry / string with that key precedes it in the result (previous_block is a {type(g.previous_block).__name__} that is not among the blocks)")
+                return
         if legit_keys is not None:
             for i, (g, b) in enumerate(zip(tail, p2)):
                 if isinstance(g, M.DuplicateBlockKeyBlock) and not isinstance(b, M.DuplicateBlockKeyBlock) \
@@ -936,6 +951,31 @@ def _splice(res, op, cfg, docs, step, V, guarded):
                 V("C04", "suffix", f"{how}/{st}/{type(unwrap_dup(b)).__name__}", step,
                   f"block {i} of the well-formed suffix is not parsed as on its own: alone {_cmp(b)!r}, after X {_cmp(g)!r}; X ends {text[max(0, x_end-40):x_end]!r}")
                 return
+    # the prefix under the DEFAULT stack: entries of D1 all of whose bare identifiers are defined by an @string of D1
+    # itself resolve the same way whatever follows ("first @string with that key anywhere in the document" is D1's)
+    if p1:
+        try:
+            a1 = EP.parse_string(D1).blocks
+            a2 = EP.parse_string(text).blocks
+        except Exception:
+            a1 = a2 = None
+        if a1 is not None and len(a2) >= len(a1) == len(p1):
+            d1_strings = {b.key for b in p1 if isinstance(b, M.String)}
+            for i, (x, y, rawb) in enumerate(zip(a1, a2, p1)):
+                if isinstance(rawb, M.Entry):
+                    bare = [f.value for f in rawb.fields if isinstance(f.value, str) and f.value
+                            and not (f.value[0] in '{"' and f.value[-1] in '}"') and not f.value.isdigit()]
+                    if any(v not in d1_strings for v in bare):
+                        continue
+                if type(x) is type(y) and isinstance(x, (M.Entry, M.String, M.Preamble, M.ExplicitComment, M.ImplicitComment)) \
+                        and not isinstance(unwrap_dup(y), M.ParsingFailedBlock):
+                    from ..fingerprint import fingerprint as _fp
+                    if _fp(x) != _fp(y):
+                        V("C04", "prefix", f"default-stack/{type(x).__name__}", step,
+                          f"block {i} of the well-formed prefix, parsed with the default stack, changed when text was appended "
+                          f"(content, lines or metadata): alone {content(x)!r} / {getattr(x, 'parser_metadata', None)!r}, with suffix {content(y)!r} / {getattr(y, 'parser_metadata', None)!r}")
+                        return
+            res.probes["prefix_compared_under_default_stack"] += 1
     mids = got[len(p1): len(got) - len(p2)]
     cls = tuple(sorted({abort_class(b) for b in mids if isinstance(b, M.ParsingFailedBlock)}))
     for c in cls:
